@@ -128,6 +128,7 @@ func runCLI(c c16Case) cliResult {
 		cmd.Stdin = nil // the child reads /dev/null, as under cron, nohup or a service manager
 	}
 	var so, se bytes.Buffer
+	var tty *ops.PtyWriter
 	cmd.Stderr = &se
 	switch c.Stdout {
 	case "devfull":
@@ -138,6 +139,14 @@ func runCLI(c c16Case) cliResult {
 		defer f.Close()
 		cmd.Stdout = f
 	case "closed":
+	case "tty":
+		// standard output is a terminal (what an interactive user has)
+		pw, err := ops.OpenPty()
+		if err != nil {
+			return cliResult{infra: "pty: " + err.Error()}
+		}
+		tty = pw
+		cmd.Stdout = pw.File()
 	case "brokenpipe":
 		// a pipe whose reader has gone away before the first write
 		pr, pw, err := os.Pipe()
@@ -151,8 +160,14 @@ func runCLI(c c16Case) cliResult {
 		cmd.Stdout = &so
 	}
 	cmd.Env = append(os.Environ(), "NO_COLOR=1")
+	if c.Stdout == "tty" {
+		cmd.Env = append(os.Environ(), "TERM=xterm-256color") // colours allowed: the terminal decides
+	}
 	before := ops.Snap(base)
 	err := cmd.Run()
+	if tty != nil {
+		so.Write(tty.Finish())
+	}
 	res := cliResult{stdout: so.Bytes(), stderr: se.Bytes(), before: before}
 	if ctx.Err() != nil {
 		res.infra = "CLI did not finish within 30s"
@@ -291,6 +306,21 @@ func c16Check(c c16Case) string {
 	} else if cli.exit != 0 {
 		return fmt.Sprintf("%sthe operation succeeds in the library but the exit status is %d (stderr %q)", head, cli.exit, truncate(string(cli.stderr), 300))
 	}
+	if c.Stdout == "tty" && lib.Err.Nil && !bytes.Contains(c.Doc, []byte("\x1b")) {
+		// on a terminal the text may carry colour sequences (dry run); without them it is what the library writes
+		got := sgrAny.ReplaceAll(cli.stdout, nil)
+		want := append(append([]byte{}, lib.Out...), lib.Color...)
+		if c.Massive {
+			a, b := strings.SplitAfter(string(got), "\n"), strings.SplitAfter(string(want), "\n")
+			sort.Strings(a)
+			sort.Strings(b)
+			if strings.Join(a, "") != strings.Join(b, "") {
+				return fmt.Sprintf("%son a terminal, stdout (colour sequences removed) differs from the library's output (as multisets of lines)\ncli:\n%s\nlibrary:\n%s", head, truncate(string(got), 800), truncate(string(want), 800))
+			}
+		} else if string(got) != string(want) {
+			return fmt.Sprintf("%son a terminal, stdout (colour sequences removed) differs from what the library writes: %s", head, firstDiff(string(got), string(want)))
+		}
+	}
 	if c.Stdout == "pipe" && lib.Err.Nil {
 		if c.Massive {
 			a, b := strings.SplitAfter(string(cli.stdout), "\n"), strings.SplitAfter(string(lib.Out), "\n")
@@ -396,12 +426,12 @@ func c16Gen() *rapid.Generator[c16Case] {
 				c.TinyTimeout = d != "1ns"
 				c.Expired = d == "1ns"
 			}
-			c.Stdout = rapid.SampledFrom([]string{"pipe", "pipe", "pipe", "devfull", "closed", "brokenpipe"}).Draw(t, "stdout")
+			c.Stdout = rapid.SampledFrom([]string{"pipe", "pipe", "pipe", "devfull", "closed", "brokenpipe", "tty"}).Draw(t, "stdout")
 		case "mkdir", "m":
 			if rapid.Bool().Draw(t, "dry") || hostile {
 				c.Args = append(c.Args, rapid.SampledFrom([]string{"--dry-run", "-d", "--dry-run=true", "-d=true"}).Draw(t, "dflag"))
 				c.DryRun = true
-				c.Stdout = rapid.SampledFrom([]string{"pipe", "pipe", "devfull", "brokenpipe"}).Draw(t, "stdout")
+				c.Stdout = rapid.SampledFrom([]string{"pipe", "pipe", "devfull", "brokenpipe", "tty"}).Draw(t, "stdout")
 			} else if rapid.IntRange(0, 3).Draw(t, "explicitFalse") == 0 {
 				c.Args = append(c.Args, rapid.SampledFrom([]string{"--dry-run=false", "-d=false"}).Draw(t, "dflag"))
 			}
